@@ -96,12 +96,13 @@ def run(tier, seed):
         ctx.transitions += 1
         rec = r.tagged("expectation")[0]
         target = [qpair(v) for v in rec[6]]
-        entries = [(mode, None)] if mode != "batch" else [("batch", "many"), ("batch", "original")]
+        entries = [(mode, None)] if mode != "batch" else [("batch", "many"), ("batch", "original"), ("batch", "interval")]
         for (_, entry) in entries:
             if mode == "batch":
                 exp, tot, nruns, kinds = XP.batch(entry, d, n, m)
                 ok = all(abs(float(a) - float(b)) <= 1e-9 * (1 + abs(float(b))) for a, b in zip(exp, target))
-                what = "BatchSage.explain_many%s" % ("_original" if entry == "original" else "")
+                what = "IntervalSage.explain_one (recomputing call)" if entry == "interval" else \
+                    "BatchSage.explain_many%s" % ("_original" if entry == "original" else "")
             else:
                 exp, tot, nruns, kinds = XP.incremental(mode, strat, d, n, m)
                 ok = exp == target
